@@ -62,6 +62,9 @@ func bodyAttrs(d *spec.Design, m *spec.Method, a *spec.Attr, headers, cookies, p
 	}
 	var out []*spec.Attr
 	for _, f := range t.Fields {
+		if f.Sec == "username" || f.Sec == "password" {
+			continue // Basic credentials always travel in the Authorization header
+		}
 		if _, ok := headers[f.Name]; ok {
 			continue
 		}
@@ -178,7 +181,7 @@ func CheckRequestPlacement(d *spec.Design, s *spec.Service, m *spec.Method, payl
 				if len(got) != len(arr) {
 					errs = append(errs, fmt.Sprintf("header %s has %d field lines for %d array elements", name, len(got), len(arr)))
 				}
-			} else if len(got) != 1 || !textEq(d.Resolve(f.Type).Kind, got[0], v) {
+			} else if len(got) != 1 || !(textEq(d.Resolve(f.Type).Kind, got[0], v) || f.Sec != "" && textEq(spec.String, strings.TrimPrefix(got[0], "Bearer "), v)) {
 				errs = append(errs, fmt.Sprintf("header %s: wire %q, value %s", name, got, gen.Show(v)))
 			}
 		}
